@@ -569,7 +569,7 @@ def r7_plurality_veto_shape(ctx):
     ctx.check(good, f, decs[0] if decs else f.node, "PluralityVeto: a candidate reaching score <= 0 is eliminated and the round stops there", "",
               "the elimination test after the veto is not `if score <= 0: eliminated.append(c); break`")
     # skip voters whose ballot is exhausted; round 0 pre-eliminates zero-score candidates
-    pre = [dv for st, dv in astx.defs_of(f.node, "eliminated_cands") if isinstance(dv, ast.ListComp)]
+    pre = [dv for st, dv in astx.defs_of(f.node, "eliminated_cands") if isinstance(dv, astx.LCOMP)]
     good = len(pre) == 1 and [bool_key(Normalizer(None, inline=False).guard(t)) for t in pre[0].generators[0].ifs] == ["le(score, 0)"] and astx.u(pre[0].generators[0].iter).endswith(".scores.items()")
     if good:
         st = [st for st, dv in astx.defs_of(f.node, "eliminated_cands") if dv is pre[0]][0]
